@@ -316,7 +316,7 @@ class Ctx:
     """Minimised past disagreements / witnesses: harness/corpus/<PID>*.jsonl"""
     d = os.path.join(VERIF, 'harness', 'corpus')
     out = []
-    for f in sorted(os.listdir(d)):
+    for f in sorted(os.listdir(d)) if os.path.isdir(d) else []:
       if f.startswith(name or self.pid) and f.endswith('.jsonl'):
         for line in open(os.path.join(d, f)):
           line = line.strip()
